@@ -81,12 +81,24 @@ def reruns(chk: Check) -> None:
     beh = [b for b in beh if b["sc"]["fault"] == "none" and not b["sc"]["force"]]
     # mutation kinds beyond the abstract model's three (emptied directory, non-.py change, stale extra file)
     extra = []
+    spec_new = features.build(["many_errors", "enum_top", "inline_object"])
+    spec_old = features.build(["many_errors", "enum_top", "inline_object"])
+    spec_new["components"]["schemas"]["AuditRecord"] = features.obj({"who": {"type": "string"}})   # referenced by nothing
+    FILE_CLASSES = ["root_init", "client", "models_init", "model", "endpoints_init", "endpoint", "mocks_init", "mock_client", "mock_endpoint", "core_runtime", "core_aliases", "core_init"]
     for b in beh:
-        if b["sc"]["existing"] == "partial":
-            # the model's `partial` (nothing comparable changed) stands for all three: the code compares only *.py present on both sides
+        sc = b["sc"]
+        if sc["existing"] == "partial":
+            # the model's `partial` (nothing comparable changed) stands for all of these: the code compares only *.py present on both sides
             for kind in ("emptied", "nonpy", "stale_extra"):
-                sc = dict(b["sc"], existing=kind)
-                extra.append({"sc": sc, "result": b["result"], "viol": b["viol"]})
+                extra.append({"sc": dict(sc, existing=kind), "result": b["result"], "viol": b["viol"]})
+            if not sc["pp"] and sc["cwd"] == "elsewhere":
+                for cls in ("root_init", "models_init", "model", "endpoint", "client"):
+                    extra.append(dict(b, variant=f"missing:{cls}"))
+        if sc["existing"] == "different" and not sc["pp"] and sc["cwd"] == "elsewhere":
+            # an edit in each class of emitted file, and a tree generated from an older version of the document
+            for cls in FILE_CLASSES:
+                extra.append(dict(b, variant=f"edit:{cls}"))
+            extra.append(dict(b, variant="specchange", spec=spec_new, spec_old=spec_old))
     beh += extra
     if not thorough:
         beh = [b for b in beh if b["sc"]["cwd"] == "elsewhere" or b["sc"]["pp"]]
